@@ -61,4 +61,150 @@ theorem uniq_append_singleton (v : α) (xs : List α) (h : v ∉ xs) : uniq (xs 
     simp [uniq, ih hxs, List.filter_append, hx]
 
 end
+
+/-! ## string layer -/
+
+theorem splitGo_single_cons (c x : Nat) (cur xs : Str) :
+    splitGo [c] 0 cur (x :: xs) =
+      if x = c then cur.reverse :: splitGo [c] 0 [] xs else splitGo [c] 0 (x :: cur) xs := by
+  by_cases h : x = c
+  · subst h; simp [splitGo, List.isPrefixOf]
+  · have : (c == x) = false := by simp [Ne.symm h]
+    simp [splitGo, List.isPrefixOf, this, h]
+
+theorem splitGo_free (c : Nat) (t rest cur : Str) (h : c ∉ t) :
+    splitGo [c] 0 cur (t ++ rest) = splitGo [c] 0 (t.reverse ++ cur) rest := by
+  induction t generalizing cur with
+  | nil => simp
+  | cons x xs ih =>
+    have hx : x ≠ c := fun e => h (by simp [e])
+    have hxs : c ∉ xs := fun e => h (by simp [e])
+    rw [List.cons_append, splitGo_single_cons, if_neg hx, ih _ hxs]
+    simp
+
+theorem splitGo_nil (d cur : Str) (k : Nat) : splitGo d k cur [] = [cur.reverse] := by
+  cases k <;> simp [splitGo]
+
+/-- `split` inverts `join` for a single-character delimiter and delimiter-free pieces. -/
+theorem split_join (c : Nat) (l : List Str) (hne : l ≠ []) (h : ∀ e ∈ l, c ∉ e) :
+    split [c] (join [c] l) = l := by
+  unfold split
+  induction l with
+  | nil => exact absurd rfl hne
+  | cons x rest ih =>
+    cases rest with
+    | nil =>
+      have := splitGo_free c x [] [] (h x (by simp))
+      simp only [List.append_nil] at this
+      simp [join, this, splitGo_nil]
+    | cons y rest' =>
+      have hx : c ∉ x := h x (by simp)
+      have ih' := ih (by simp) (fun e he => h e (by simp [he]))
+      simp only [join, List.append_assoc]
+      rw [splitGo_free c x _ [] hx]
+      simp only [List.append_nil, List.singleton_append]
+      rw [splitGo_single_cons]
+      simp [ih']
+
+
+theorem varAt_ne (c : Nat) (cs : Str) (h : c ≠ 36) : varAt (c :: cs) = none := by
+  unfold varAt
+  split
+  · rename_i heq; injection heq with h1 _; exact absurd h1 h
+  · rfl
+
+theorem refAt_ne (c : Nat) (cs : Str) (h : c ≠ 36) : refAt (c :: cs) = none := by
+  unfold refAt
+  split
+  · rename_i heq; injection heq with h1 _; exact absurd h1 h
+  · rfl
+
+theorem expandGo_no_dollar (env : Env) (f : Nat) (s : Str) (h : 36 ∉ s) : expandGo env f s = .value s := by
+  induction f generalizing s with
+  | zero => simp [expandGo]
+  | succ f ih =>
+    cases s with
+    | nil => simp [expandGo]
+    | cons c cs =>
+      have hc : c ≠ 36 := fun e => h (by simp [e])
+      have hcs : 36 ∉ cs := fun e => h (by simp [e])
+      simp [expandGo, varAt_ne c cs hc, ih cs hcs]
+
+theorem expand_no_dollar (env : Env) (s : Str) (h : 36 ∉ s) : expand env s = .value s :=
+  expandGo_no_dollar env _ s h
+
+theorem interp_no_dollar (env : Env) (f : Nat) (s : Str) (h : 36 ∉ s) : interp env f s = s := by
+  induction f generalizing s with
+  | zero => simp [interp]
+  | succ f ih =>
+    cases s with
+    | nil => simp [interp]
+    | cons c cs =>
+      have hc : c ≠ 36 := fun e => h (by simp [e])
+      have hcs : 36 ∉ cs := fun e => h (by simp [e])
+      simp [interp, refAt_ne c cs hc, ih cs hcs]
+
+theorem not_mem_join (c x : Nat) (l : List Str) (hx : x ≠ c) (h : ∀ e ∈ l, x ∉ e) : x ∉ join [c] l := by
+  induction l with
+  | nil => simp [join]
+  | cons a rest ih =>
+    cases rest with
+    | nil => simpa [join] using h a (by simp)
+    | cons b rest' =>
+      have := ih (fun e he => h e (by simp [he]))
+      simp only [join, List.mem_append, not_or]
+      exact ⟨⟨h a (by simp), by simp [hx]⟩, this⟩
+
+
+/-- pieces of a well-formed path value: non-empty, free of the delimiter `c` and of `$` -/
+def GoodPiece (c : Nat) (e : Str) : Prop := e ≠ [] ∧ c ∉ e ∧ 36 ∉ e
+
+theorem startsWith_good (c : Nat) (v : Str) (h : GoodPiece c v) : startsWith v [c] = false := by
+  obtain ⟨hne, hc, _⟩ := h
+  cases v with
+  | nil => exact absurd rfl hne
+  | cons x xs =>
+    have : (c == x) = false := by simp; intro e; exact hc (by simp [e])
+    simp [startsWith, List.isPrefixOf, this]
+
+theorem endsWith_good (c : Nat) (v : Str) (h : GoodPiece c v) : endsWith v [c] = false := by
+  have h' : GoodPiece c v.reverse := ⟨by simpa using h.1, by simpa using h.2.1, by simpa using h.2.2⟩
+  simpa [endsWith, startsWith] using startsWith_good c v.reverse h'
+
+theorem split_join_filter (c : Nat) (l : List Str) (h : ∀ e ∈ l, GoodPiece c e) :
+    (split [c] (join [c] l)).filter (fun el => !decide (el = [])) = l := by
+  cases l with
+  | nil => simp [join, split, splitGo]
+  | cons a rest =>
+    rw [split_join c _ (by simp) (fun e he => (h e he).2.1)]
+    apply List.filter_eq_self.mpr
+    intro e he
+    simpa using (h e he).1
+
+theorem applyL_mem (append fwd : Bool) (v : Str) (old : List Str) (e : Str)
+    (he : e ∈ applyL append fwd [v] old) : e = v ∨ e ∈ old := by
+  unfold applyL at he
+  rw [mem_uniq] at he
+  cases fwd <;> cases append <;> simp [appendL, prependL, removeL] at he <;> grind
+
+theorem envPrepend_lifts (c : Nat) (hc : c ≠ 36) (append fwd : Bool) (var v : Str) (oldl : List Str) (env : Env)
+    (hold : ∀ e ∈ oldl, GoodPiece c e) (hv : GoodPiece c v)
+    (henv : (env.get var).getD [] = join [c] oldl) :
+    envPrepend append fwd var v [c] env = .ok (env.set var (join [c] (applyL append fwd [v] oldl))) := by
+  have hsplitv : split [c] v = [v] := by
+    have := split_join c [v] (by simp) (by intro e he; simp at he; subst he; exact hv.2.1)
+    simpa [join] using this
+  have hgood : ∀ e ∈ applyL append fwd [v] oldl, 36 ∉ e := by
+    intro e he
+    rcases applyL_mem append fwd v oldl e he with h | h
+    · subst h; exact hv.2.2
+    · exact (hold e h).2.2
+  have hnd : (36 : Nat) ∉ join [c] (applyL append fwd [v] oldl) :=
+    not_mem_join c 36 _ (Ne.symm hc) hgood
+  unfold envPrepend
+  simp [startsWith_good c v hv, endsWith_good c v hv, henv,
+    expand_no_dollar env v hv.2.2, hsplitv, setEnvI]
+  rw [split_join_filter c oldl hold, interp_no_dollar env _ _ hnd]
+
+
 end EupsModel.PathAlg
